@@ -1,1 +1,283 @@
-import ElvProofs.C07.Assoc6
+/-
+C07 helper lemmas, part 17: the iterator protocol (`HasElem / Elem / Next` as a
+state machine) yields exactly the contents `toAList`, each entry once.
+-/
+import ElvProofs.C07.Without4
+namespace C07
+open Go Gen.C07Bits
+
+variable {K V : Type}
+
+/-- what is still to be yielded by an iterator state -/
+def Iter.rest : Iter K V → List (K × V)
+  | .bitmapIt es ix cur =>
+    (match cur with
+      | some c => c.rest
+      | none =>
+        match es[ix]? with
+        | some (.kv k v) => [(k, v)]
+        | _ => []) ++ (es.drop (ix + 1)).flatMap entryAL
+  | .arrayIt cs ix cur =>
+    match cur with
+    | some c => c.rest ++ (cs.drop (ix + 1)).flatMap childAL
+    | none => []
+  | .collIt kvs ix => kvs.drop ix
+
+/-- the children of a bitmap node are non-empty and their iterators yield their contents -/
+def GoodEs (es : List (Entry K V)) : Prop :=
+  ∀ n, Entry.sub n ∈ es → n.iterator.rest = n.toAList ∧ n.toAList ≠ []
+
+def GoodCs (cs : List (Option (Node K V))) : Prop :=
+  ∀ n, some n ∈ cs → n.iterator.rest = n.toAList ∧ n.toAList ≠ []
+
+/-- iterator states reachable from `node.iterator()` on trees without empty children -/
+inductive Valid : Iter K V → Prop
+  | bitmapKV {es : List (Entry K V)} {ix : Nat} {k : K} {v : V} :
+      es[ix]? = some (.kv k v) → GoodEs es → (∀ n, Entry.sub n ∈ es → Valid n.iterator) →
+      Valid (.bitmapIt es ix none)
+  | bitmapEnd {es : List (Entry K V)} {ix : Nat} : es.length ≤ ix → Valid (.bitmapIt es ix none)
+  | bitmapSub {es : List (Entry K V)} {ix : Nat} {child : Node K V} {c : Iter K V} :
+      es[ix]? = some (.sub child) → Valid c → c.rest ≠ [] → GoodEs es →
+      (∀ n, Entry.sub n ∈ es → Valid n.iterator) → Valid (.bitmapIt es ix (some c))
+  | arrayEnd {cs : List (Option (Node K V))} {ix : Nat} : Valid (.arrayIt cs ix none)
+  | arraySub {cs : List (Option (Node K V))} {ix : Nat} {c : Iter K V} :
+      Valid c → c.rest ≠ [] → GoodCs cs → (∀ n, some n ∈ cs → Valid n.iterator) →
+      Valid (.arrayIt cs ix (some c))
+  | coll {kvs : List (K × V)} {ix : Nat} : Valid (.collIt kvs ix)
+
+theorem fixB_eq (es : List (Entry K V)) (i : Nat) :
+    fixB es i = match es[i]? with
+      | some (.sub child) => some child.iterator
+      | _ => none := by
+  induction es generalizing i with
+  | nil => simp [fixB]
+  | cons e es ih =>
+    cases i with
+    | zero => cases e <;> simp [fixB]
+    | succ i => cases e <;> simp [fixB, ih]
+
+theorem drop_flatMap_cons {α β : Type} (f : α → List β) (l : List α) (j : Nat) (x : α) (h : l[j]? = some x) :
+    (l.drop j).flatMap f = f x ++ (l.drop (j + 1)).flatMap f := by
+  have hj : j < l.length := by
+    rcases Nat.lt_or_ge j l.length with h' | h'
+    · exact h'
+    · rw [List.getElem?_eq_none h'] at h; cases h
+  rw [List.drop_eq_getElem_cons hj, List.flatMap_cons]
+  rw [List.getElem?_eq_getElem hj] at h
+  rw [Option.some.inj h]
+
+theorem fixB_spec (es : List (Entry K V)) (hg : GoodEs es) (hv : ∀ n, Entry.sub n ∈ es → Valid n.iterator)
+    (j : Nat) :
+    Valid (.bitmapIt es j (fixB es j)) ∧
+      (Iter.bitmapIt es j (fixB es j)).rest = (es.drop j).flatMap entryAL := by
+  rw [fixB_eq]
+  cases hx : es[j]? with
+  | none =>
+    have hj : es.length ≤ j := by
+      rcases Nat.lt_or_ge j es.length with h | h
+      · rw [List.getElem?_eq_getElem h] at hx; cases hx
+      · exact h
+    refine ⟨Valid.bitmapEnd hj, ?_⟩
+    simp [Iter.rest, hx, List.drop_eq_nil_of_le hj, List.drop_eq_nil_of_le (Nat.le_succ_of_le hj)]
+  | some x =>
+    cases x with
+    | kv k v =>
+      refine ⟨Valid.bitmapKV hx hg hv, ?_⟩
+      simp [Iter.rest, hx, drop_flatMap_cons entryAL es j _ hx, entryAL]
+    | sub child =>
+      have hm : Entry.sub child ∈ es := List.mem_of_getElem? hx
+      obtain ⟨h1, h2⟩ := hg child hm
+      refine ⟨Valid.bitmapSub hx (hv child hm) (by rw [h1]; exact h2) hg hv, ?_⟩
+      simp [Iter.rest, drop_flatMap_cons entryAL es j _ hx, entryAL, h1]
+
+theorem fixA_spec (cs0 : List (Option (Node K V))) (hg : GoodCs cs0) (hv : ∀ n, some n ∈ cs0 → Valid n.iterator) :
+    ∀ (cs pre : List (Option (Node K V))) (skip : Nat), cs0 = pre ++ cs →
+      Valid (.arrayIt cs0 (fixA cs skip pre.length).1 (fixA cs skip pre.length).2) ∧
+      (Iter.arrayIt cs0 (fixA cs skip pre.length).1 (fixA cs skip pre.length).2).rest =
+        (cs.drop skip).flatMap childAL := by
+  intro cs
+  induction cs with
+  | nil =>
+    intro pre skip _
+    simp [fixA, Iter.rest, Valid.arrayEnd]
+  | cons c cs ih =>
+    intro pre skip hcs
+    have hpre : cs0 = (pre ++ [c]) ++ cs := by simp [hcs]
+    have hl : (pre ++ [c]).length = pre.length + 1 := by simp
+    cases skip with
+    | succ skip =>
+      have := ih (pre ++ [c]) skip hpre
+      rw [hl] at this
+      simpa [fixA] using this
+    | zero =>
+      cases c with
+      | none =>
+        have := ih (pre ++ [none]) 0 hpre
+        rw [hl] at this
+        simpa [fixA, childAL] using this
+      | some child =>
+        have hm : some child ∈ cs0 := by rw [hcs]; simp
+        obtain ⟨h1, h2⟩ := hg child hm
+        simp only [fixA]
+        refine ⟨Valid.arraySub (hv child hm) (by rw [h1]; exact h2) hg hv, ?_⟩
+        simp only [Iter.rest, h1, List.drop_zero, List.flatMap_cons, childAL]
+        rw [hcs]
+        simp
+
+theorem hasElem_spec {it : Iter K V} (h : Valid it) : it.hasElem = !it.rest.isEmpty := by
+  cases h with
+  | @bitmapKV es ix k v hx hg hv =>
+    have hj : ix < es.length := by
+      rcases Nat.lt_or_ge ix es.length with h' | h'
+      · exact h'
+      · rw [List.getElem?_eq_none h'] at hx; cases hx
+    simp only [Iter.hasElem, Iter.rest, hx]
+    simp [hj]
+  | @bitmapEnd es ix hj =>
+    simp [Iter.hasElem, Iter.rest, List.getElem?_eq_none hj, List.drop_eq_nil_of_le (Nat.le_succ_of_le hj)]
+    omega
+  | @bitmapSub es ix child c hx hc hne hg hv =>
+    have hj : ix < es.length := by
+      rcases Nat.lt_or_ge ix es.length with h' | h'
+      · exact h'
+      · rw [List.getElem?_eq_none h'] at hx; cases hx
+    simp [Iter.hasElem, Iter.rest, hj, hne]
+  | arrayEnd => simp [Iter.hasElem, Iter.rest]
+  | arraySub hc hne hg hv => simp [Iter.hasElem, Iter.rest, hne]
+  | @coll kvs ix =>
+    simp only [Iter.hasElem, Iter.rest]
+    by_cases h : ix < kvs.length
+    · simp [h] <;> omega
+    · simp [h] <;> omega
+
+/-- one step of the protocol: `Elem` is the head of what remains, `Next` moves to the tail -/
+theorem step_spec {it : Iter K V} (h : Valid it) :
+    ∀ e tl, it.rest = e :: tl → it.elem = .ok e ∧ ∃ it', it.next = .ok it' ∧ Valid it' ∧ it'.rest = tl := by
+  induction h with
+  | @bitmapKV es ix k v hx hg hv _ =>
+    intro e tl hr
+    simp only [Iter.rest, hx, List.singleton_append, List.cons.injEq] at hr
+    obtain ⟨rfl, rfl⟩ := hr
+    refine ⟨by simp [Iter.elem, hx], _, by simp [Iter.next], (fixB_spec es hg hv (ix + 1)).1, (fixB_spec es hg hv (ix + 1)).2⟩
+  | @bitmapEnd es ix hj =>
+    intro e tl hr
+    simp [Iter.rest, List.getElem?_eq_none hj, List.drop_eq_nil_of_le (Nat.le_succ_of_le hj)] at hr
+  | @bitmapSub es ix child c hx hc hne hg hv ih _ =>
+    intro e tl hr
+    simp only [Iter.rest] at hr
+    cases hcr : c.rest with
+    | nil => exact absurd hcr hne
+    | cons e' tl' =>
+      rw [hcr, List.cons_append, List.cons.injEq] at hr
+      obtain ⟨rfl, rfl⟩ := hr
+      obtain ⟨he, c', hn, hv', hr'⟩ := ih e' tl' hcr
+      refine ⟨by simp [Iter.elem, he], ?_⟩
+      have hh := hasElem_spec hv'
+      cases htl : tl' with
+      | nil =>
+        rw [hr', htl] at hh
+        refine ⟨_, by simp [Iter.next, hn, hh], (fixB_spec es hg hv (ix + 1)).1, ?_⟩
+        rw [(fixB_spec es hg hv (ix + 1)).2]; rfl
+      | cons a b =>
+        rw [hr', htl] at hh
+        refine ⟨.bitmapIt es ix (some c'), by simp [Iter.next, hn, hh],
+          Valid.bitmapSub hx hv' (by rw [hr', htl]; simp) hg hv, ?_⟩
+        simp [Iter.rest, hr', htl]
+  | arrayEnd =>
+    intro e tl hr
+    simp [Iter.rest] at hr
+  | @arraySub cs ix c hc hne hg hv ih _ =>
+    intro e tl hr
+    simp only [Iter.rest] at hr
+    cases hcr : c.rest with
+    | nil => exact absurd hcr hne
+    | cons e' tl' =>
+      rw [hcr, List.cons_append, List.cons.injEq] at hr
+      obtain ⟨rfl, rfl⟩ := hr
+      obtain ⟨he, c', hn, hv', hr'⟩ := ih e' tl' hcr
+      refine ⟨by simp [Iter.elem, he], ?_⟩
+      have hh := hasElem_spec hv'
+      cases htl : tl' with
+      | nil =>
+        rw [hr', htl] at hh
+        have hA := fixA_spec cs hg hv cs [] (ix + 1) rfl
+        simp only [List.length_nil] at hA
+        refine ⟨_, by simp [Iter.next, hn, hh], hA.1, ?_⟩
+        rw [hA.2]; rfl
+      | cons a b =>
+        rw [hr', htl] at hh
+        refine ⟨.arrayIt cs ix (some c'), by simp [Iter.next, hn, hh],
+          Valid.arraySub hv' (by rw [hr', htl]; simp) hg hv, ?_⟩
+        simp [Iter.rest, hr', htl]
+  | @coll kvs ix =>
+    intro e tl hr
+    simp only [Iter.rest] at hr
+    have hj : ix < kvs.length := by
+      rcases Nat.lt_or_ge ix kvs.length with h' | h'
+      · exact h'
+      · rw [List.drop_eq_nil_of_le h'] at hr; cases hr
+    rw [List.drop_eq_getElem_cons hj, List.cons.injEq] at hr
+    obtain ⟨rfl, rfl⟩ := hr
+    exact ⟨by simp [Iter.elem, hj], _, by simp [Iter.next], Valid.coll, rfl⟩
+
+/-- draining a valid iterator with enough budget yields exactly what remains -/
+theorem drain_spec : ∀ (fuel : Nat) (it : Iter K V), Valid it → it.rest.length ≤ fuel →
+    drain fuel it = .ok it.rest := by
+  intro fuel
+  induction fuel with
+  | zero =>
+    intro it hv hl
+    have : it.rest = [] := List.eq_nil_of_length_eq_zero (by omega)
+    simp [drain, hasElem_spec hv, this]
+  | succ fuel ih =>
+    intro it hv hl
+    cases hr : it.rest with
+    | nil => simp [drain, hasElem_spec hv, hr]
+    | cons e tl =>
+      obtain ⟨he, it', hn, hv', hr'⟩ := step_spec hv e tl hr
+      have := ih it' hv' (by rw [hr']; rw [hr] at hl; simp at hl; omega)
+      simp [drain, hasElem_spec hv, hr, he, hn, this, hr']
+
+/-- no empty sub-node anywhere (what the iterators rely on) -/
+inductive NET : Node K V → Prop
+  | bitmap {bm : UInt32} {es : List (Entry K V)} :
+      (∀ n, Entry.sub n ∈ es → NET n) → (∀ n, Entry.sub n ∈ es → n.toAList ≠ []) → NET (.bitmap bm es)
+  | array {nc : Int} {cs : List (Option (Node K V))} :
+      (∀ n, some n ∈ cs → NET n) → (∀ n, some n ∈ cs → n.toAList ≠ []) → NET (.array nc cs)
+  | collision {h : UInt32} {kvs : List (K × V)} : NET (.collision h kvs)
+
+/-- `node.iterator()` is valid and yields the node's contents -/
+theorem iterator_spec {n : Node K V} (h : NET n) : Valid n.iterator ∧ n.iterator.rest = n.toAList := by
+  induction h with
+  | @bitmap bm es hs hne ih =>
+    have hg : GoodEs es := fun n hn => ⟨(ih n hn).2, hne n hn⟩
+    have := fixB_spec es hg (fun n hn => (ih n hn).1) 0
+    simpa [Node.iterator] using this
+  | @array nc cs hs hne ih =>
+    have hg : GoodCs cs := fun n hn => ⟨(ih n hn).2, hne n hn⟩
+    have := fixA_spec cs hg (fun n hn => (ih n hn).1) cs [] 0 rfl
+    simpa [Node.iterator] using this
+  | collision => exact ⟨Valid.coll, by simp [Node.iterator, Iter.rest]⟩
+
+theorem net_of_wf {eq : K → K → Bool} {hashf : K → UInt32} {d : Nat} {n : Node K V}
+    (h : WF eq hashf d n) : NET n := by
+  induction h with
+  | @bitmap d bm es hd hlen hkv hsub hkeys ih =>
+    refine NET.bitmap ?_ ?_
+    · intro n hn
+      obtain ⟨c, hc, hs⟩ := (mem_iff_slot hlen _).mp hn
+      exact ih c n hc hs
+    · intro n hn
+      obtain ⟨c, hc, hs⟩ := (mem_iff_slot hlen _).mp hn
+      exact (hkeys c n hc hs).1
+  | @array d nc cs hd hlen hnc hmin hsub hkeys ih =>
+    refine NET.array ?_ ?_
+    · intro n hn
+      obtain ⟨c, hc, hcx⟩ := List.getElem_of_mem hn
+      exact ih c n (by rw [List.getElem?_eq_getElem hc, hcx])
+    · intro n hn
+      obtain ⟨c, hc, hcx⟩ := List.getElem_of_mem hn
+      exact (hkeys c n (by rw [List.getElem?_eq_getElem hc, hcx])).1
+  | collision => exact NET.collision
+
+end C07
